@@ -21,10 +21,13 @@ def gen(rng, kind):
         g[rng.random(n) < 0.5] = 0.0
     B = rng.normal(size=(n, n))
     r = rng.random()
+    convex = False
     if r < 0.2:
         H = np.zeros((n, n))
+        convex = True
     elif r < 0.5:
         H = B @ B.T                      # positive semidefinite
+        convex = True
     elif r < 0.7:
         H = -(B @ B.T)
     else:
@@ -49,6 +52,24 @@ def gen(rng, kind):
         w = delta / (2.0 * np.sqrt(n))
         xl = -np.abs(rng.uniform(0, 1, n)) * w
         xu = np.abs(rng.uniform(0, 1, n)) * w
+    r = rng.random()
+    if r < 0.12:
+        # ties: several variables share their bounds, their gradient component and their curvature, so that several bounds
+        # are reached at the same step length
+        lo, hi = -abs(rng.normal()) * delta * 0.3, abs(rng.normal()) * delta * 0.3
+        xl, xu = np.full(n, lo), np.full(n, hi)
+        vals = rng.normal(size=2) * mag
+        g = np.where(rng.random(n) < 0.6, vals[0], vals[1])
+        H = np.eye(n) * float(abs(rng.normal())) * mag * (0.0 if rng.random() < 0.3 else 1.0)
+        convex = True
+    elif r < 0.2:
+        # the origin sits within rounding distance of some bounds while descent is possible elsewhere
+        for i in range(n):
+            if rng.random() < 0.5:
+                if rng.random() < 0.5:
+                    xl[i] = -1e-9 * delta * rng.random()
+                else:
+                    xu[i] = 1e-9 * delta * rng.random()
     mub = int(rng.integers(0, 4)) if kind in ("constrained_tangential", "normal") else 0
     meq = int(rng.integers(0, min(n, 3) + 1)) if kind in ("constrained_tangential", "normal") else 0
     aub = rng.normal(size=(mub, n))
@@ -69,7 +90,7 @@ def gen(rng, kind):
     const = 0.0 if rng.random() < 0.6 else float(rng.normal() * mag)
     xpt = rng.normal(size=(n, int(rng.integers(1, 2 * n + 2)))) * delta * 10.0 ** rng.uniform(-1, 1)
     return {"kind": kind, "n": n, "g": g, "H": H, "xl": xl, "xu": xu, "aub": aub, "bub": bub, "aeq": aeq, "beq": beq,
-            "delta": delta, "const": const, "xpt": xpt, "improve_tcg": bool(rng.random() < 0.6)}
+            "delta": delta, "const": const, "xpt": xpt, "improve_tcg": bool(rng.random() < 0.6), "convex": convex}
 
 
 def call(c):
